@@ -13,10 +13,69 @@ import traceback
 from pathlib import Path
 
 
+def install_crash_points(root, crash_at):
+    """I4e: the process dies (os._exit(137): no finally, no atexit, no flush of buffered writers) at the
+    crash_at-th crash point.  Crash points are (a) BEFORE every filesystem mutation under `root` (audit events
+    open-for-writing, os.rename (= replace), os.remove, os.mkdir, os.rmdir, os.truncate, os.link) and (b) right
+    AFTER each publishing / unpublishing call (os.replace, os.rename, os.link, os.unlink, os.remove) returned.
+    Returns a dict whose 'n' is the number of points passed so far and 'kinds' their kinds."""
+    import threading
+    state = {'n': 0, 'kinds': []}
+    root = os.path.realpath(root)
+    lock = threading.Lock()
+
+    def under(p):
+        try:
+            p = os.fspath(p)
+            if isinstance(p, bytes):
+                p = os.fsdecode(p)
+            return os.path.realpath(p).startswith(root + os.sep) or os.path.realpath(p) == root
+        except Exception:
+            return False
+
+    def point(kind):
+        with lock:
+            state['n'] += 1
+            n = state['n']
+            state['kinds'].append(kind)
+        if crash_at is not None and n == crash_at:
+            os.write(2, f'CRASHPOINT {n} {kind}\n'.encode())     # fd 2 directly: sys.stderr may be redirected
+            os._exit(137)
+
+    WR = os.O_WRONLY | os.O_RDWR | os.O_CREAT | os.O_TRUNC | os.O_APPEND
+
+    def hook(event, args):
+        if event == 'open':
+            path, mode, flags = args
+            if isinstance(path, (str, bytes, os.PathLike)) and flags is not None and (flags & WR) and under(path):
+                point('before:open-w')
+        elif event in ('os.rename', 'os.link'):
+            if under(args[0]) or under(args[1]):
+                point('before:' + event)
+        elif event in ('os.remove', 'os.mkdir', 'os.rmdir', 'os.truncate'):
+            if isinstance(args[0], (str, bytes, os.PathLike)) and under(args[0]):
+                point('before:' + event)
+    sys.addaudithook(hook)
+
+    def after(name):
+        orig = getattr(os, name)
+
+        def wrapper(*a, **k):
+            res = orig(*a, **k)
+            if a and isinstance(a[0], (str, bytes, os.PathLike)) and (under(a[0]) or (len(a) > 1 and isinstance(a[1], (str, bytes, os.PathLike)) and under(a[1]))):
+                point('after:os.' + name)
+            return res
+        setattr(os, name, wrapper)
+    for name in ('replace', 'rename', 'link', 'unlink', 'remove'):
+        after(name)
+    return state
+
+
 def main():
     action, spec = sys.argv[1], json.loads(sys.argv[2])
     from . import rep
     from replicat.backends.local import Local
+    crash = install_crash_points(spec['repo'], spec.get('crash_at')) if 'crash_at' in spec else None
 
     password = (spec.get('password') or rep.PASSWORD.decode()).encode()
     backend = Local(spec['repo'])
@@ -69,6 +128,9 @@ def main():
         out['ok'] = False
         out['error'] = f'{type(e).__name__}: {e}'
         out['trace'] = traceback.format_exc()[-1500:]
+    if crash is not None:
+        out['crash_points'] = crash['n']
+        out['crash_kinds'] = crash['kinds']
     sys.stdout.write('\n' + json.dumps(out) + '\n')
     sys.stdout.flush()
     # a failing restore may leave loader threads parked (C09); never let that hang the child
